@@ -63,6 +63,18 @@ CHECKS["C16"] = dict(
     technique="Coq proof over an abstract file system + vm_compute correspondence on real directory layouts with an audit hook",
     design="7/C16")
 
+CHECKS["C05"] = dict(
+    text="Machine-checked proof (Coq): pydap's encoder model (incl. the packed fast path for flat sequences) equals the DAP2/XDR "
+         "SPEC for every declaration and value; pydap's decoder model (incl. the fixed-width fast path) returns, from the SPEC "
+         "bytes of any well-formed value of any declaration followed by anything, that value and the untouched remainder; the "
+         "Content-Length arithmetic equals the encoded length. Both models are compared with pydap (body after 'Data:', decoder "
+         "on reference bytes) on generated datasets x constraints; an independent reference encoder is compared with the SPEC; "
+         "embedded DDS vs .dds and Content-Length vs body are checked on the implementation.",
+    note=TB + "numpy astype between DAP widths as modelled; floats as bit patterns; DDS text -> declaration is pydap's parser (C07); "
+              "typeless empty lazy sequences are outside the domain.",
+    technique="Coq proof (nested induction over declarations, fuelled record loop, big-endian word round trips) + vm_compute correspondence in both directions",
+    design="7/C05")
+
 NOT_YET = {
 }
 
